@@ -988,6 +988,17 @@ pub fn run(args: &[String]) -> i32 {
                     if st.success() {
                         break;
                     }
+                    if st.code() == Some(75) {
+                        // the child asked for a fresh process (web servers cannot be shut down and leave their threads
+                        // behind): every script it started is complete
+                        let text = std::fs::read_to_string(&part).map_err(|e| e.to_string())?;
+                        let now = text.lines().filter(|l| is_head(l)).count();
+                        if now <= started {
+                            return Err(format!("child of job {j} asked for a restart without having run a script"));
+                        }
+                        started = now;
+                        continue;
+                    }
                     if st.code().is_some() {
                         return Err(format!("child of job {j} (from script {from}) failed with {st}"));
                     }
@@ -1124,6 +1135,9 @@ fn child(args: &[String]) -> i32 {
             }
         }
         o.flush();
+        if HTTP_SEQ.load(Ordering::SeqCst) >= 20 && k + step < scripts.len() {
+            return 75;
+        }
     }
     0
 }
